@@ -294,6 +294,10 @@ package scan
 //@       (forall i in 0..len(o.scanners) :: msNext(o, i, o.currentStep - o.offset))
 //@   panics may
 //@   assigns scan.matrixSelector.scanners, scan.matrixSelector.series, scan.matrixSelector.once, model.VectorPool.stepSize, ghost bowner, ghost wlo, ghost whi
+// The series of every range function but last_over_time has no metric name (C03): whatever the
+// position of __name__ among the labels of the storage series.
+//@   at line "sort.Sort(lbls)" assert[C03] metric-name-dropped-from-the-output-series: o.funcExpr.Func.Name != "last_over_time" ==>
+//@       forall k in 0..len(lbls) :: lbls[k].Name != "__name__"
 //@   at line "o.series[i] = lbls" set o.scanners[i].samples.bowner = i
 //@   at line "o.series[i] = lbls" set o.scanners[i].samples.whi = o.currentStep - o.offset - o.selectRange - 1
 //@   at line "o.series[i] = lbls" set o.scanners[i].samples.wlo = o.currentStep - o.offset - o.selectRange
